@@ -877,6 +877,14 @@ func (e *Env) call(n ECall) Term {
 		r := mk(vs, get, ver, m, k)
 		r.T = mt.Elem()
 		return r
+	case "same":
+		// structural identity (same header), as opposed to == on strings which compares contents
+		argN(2)
+		a, b := e.tr(n.Args[0]), e.tr(n.Args[1])
+		if a.Sort != b.Sort {
+			e.fail("same(): sorts %s / %s", a.Sort, b.Sort)
+		}
+		return eq(a, b)
 	case "streq":
 		argN(2)
 		return fv.strEq(fv.heap(e.st, "M", SInt), e.tr(n.Args[0]), e.tr(n.Args[1]))
